@@ -158,8 +158,12 @@ def set_tagged(root: config.Buildable, *, tag: TagType, value: Any) -> None:
       for key, tags in node.__argument_tags__.items():
         if any(issubclass(t, tag) for t in tags):
           if isinstance(key, int):
-            # Positional-only and *args arguments are addressed by index.
-            node[key] = value
+            # Positional-only and *args arguments are addressed by index. A
+            # tagged *args slot that has no value yet is the next free slot.
+            if key == len(node[:]):
+              node[key:key] = [value]
+            else:
+              node[key] = value
           else:
             setattr(node, key, value)
 
